@@ -170,6 +170,7 @@ static Plan gen_c16(uint64_t seed, int64_t index, bool thorough)
     std::string key = rng.pick(pk);
     const ref::Model* m = model_for(grammar_of(key));
     OpShape sh;
+    sh.allow_heap = true;
     sh.budget = thorough ? 30 : 14;
     sh.ws_rich = rng.chance(1, 3);
     sh.buffers = { BUF_SIM, BUF_STRING, BUF_VIEW, BUF_CSTRING };
